@@ -45,6 +45,9 @@ EXTRA = {
 #           loop leaves when the stream is exhausted.
 # Keys are spelled without local names: the variant variable is `$v`, every other local of the function is `_`
 # (globals, builtins, attribute names stay) - renaming a local is a behaviour-preserving edit.
+# An index entry also stands for the same counter and bound under a test with further top-level conjuncts
+# (`$v > 0 and (...)`): they only let the loop leave earlier (see _classify).  Budget, consumer and descent
+# entries are matched by the whole test.
 LOOPS = {
     ("Execer._parse_ctx_free._try_parse", "not _"): dict(kind="budget"),
     ("_have_open_triple_quotes", "$v < _"): dict(
@@ -100,6 +103,63 @@ def _abstract(node, locals_, var):
     return " ".join(unparse(_Abstract(locals_, var).visit(clone(node))).split())
 
 
+def _bounding_conjuncts(test, var, direction):
+    """The top-level conjuncts of a loop test that bound ``var`` in the progress direction: (conjunct, bound expression, strict)."""
+    out = []
+    for c in conjuncts(test):
+        if isinstance(c, ast.Compare) and len(c.ops) == 1:
+            l, op, r = unparse(c.left), c.ops[0], unparse(c.comparators[0])
+            if direction > 0 and l == var and isinstance(op, (ast.Lt, ast.LtE)):
+                out.append((c, c.comparators[0], isinstance(op, ast.Lt)))
+            elif direction > 0 and r == var and isinstance(op, (ast.Gt, ast.GtE)):
+                out.append((c, c.left, isinstance(op, ast.Gt)))
+            elif direction < 0 and l == var and isinstance(op, (ast.Gt, ast.GtE)):
+                out.append((c, c.comparators[0], isinstance(op, ast.Gt)))
+            elif direction < 0 and r == var and isinstance(op, (ast.Lt, ast.LtE)):
+                out.append((c, c.left, isinstance(op, ast.Lt)))
+    return out
+
+
+def _bounds_var(test, var, direction):
+    """Some conjunct of the loop test bounds ``var`` in the progress direction."""
+    return bool(_bounding_conjuncts(test, var, direction))
+
+
+_PLACEHOLDER = "V__variant__"
+_catalogued_bounds_memo = {}
+
+
+def _catalogued_bounds(key, direction):
+    """The bound(s) a catalogued index test puts on its counter: (strict, bound in the catalogue's spelling) - (True, `0`)
+    for `$v > 0`, (True, `_ - 1`) for `... and $v < _ - 1`.  Which side of the comparison the counter stands on is not part of it."""
+    if (key, direction) not in _catalogued_bounds_memo:
+        tree = ast.parse(key.replace("$v", _PLACEHOLDER), mode="eval").body
+        _catalogued_bounds_memo[(key, direction)] = [
+            (strict, " ".join(unparse(b).split()).replace(_PLACEHOLDER, "$v")) for _c, b, strict in _bounding_conjuncts(tree, _PLACEHOLDER, direction)
+        ]
+    return _catalogued_bounds_memo[(key, direction)]
+
+
+def _bound_is_fixed(w, var, bound):
+    """The bound of an index loop stands still while the loop runs: it is built from constants and plain names by
+    arithmetic alone (no call, attribute or subscript whose value the loop could change behind the name), none of
+    these names is bound anywhere inside the loop - test included - and the test does not itself store the counter."""
+    names = set()
+    for n in ast.walk(bound):
+        if isinstance(n, ast.Name):
+            names.add(n.id)
+        elif not isinstance(n, (ast.Constant, ast.BinOp, ast.UnaryOp, ast.operator, ast.unaryop, ast.expr_context)):
+            return False
+    if var in names:
+        return False
+    for n in ast.walk(w):
+        if isinstance(n, ast.Name) and not isinstance(n.ctx, ast.Load) and n.id in names:
+            return False
+        if isinstance(n, (ast.Global, ast.Nonlocal)) and set(n.names) & (names | {var}):
+            return False
+    return not any(isinstance(n, ast.Name) and not isinstance(n.ctx, ast.Load) and n.id == var for n in ast.walk(w.test))
+
+
 def _classify(short_q, w, locals_):
     """(entry, variant variable or None, key) for a while loop, by trying each local of the test as `$v`"""
     names = []
@@ -121,23 +181,28 @@ def _classify(short_q, w, locals_):
         return None, None, k
     if ent is not None and ent["kind"] == "consumer":
         return ent, None, k
+    # The same index variant under a different test.  What makes an index loop terminate is the counter, its
+    # direction and the bound; the catalogue entry of the function records exactly these (plus the argued progress
+    # assignments of that counter).  Every further top-level conjunct of the test can only make the loop leave
+    # EARLIER - arms of the body that ended in `break` folded into the condition, or the reverse - so a test is the
+    # catalogued loop when one of its top-level conjuncts is the catalogued bound on a counter (`$v > 0` as a
+    # conjunct, never inside an `or` or under a `not`) and that bound stands still.  All obligations of the entry
+    # (progress on every cycle, no other write, bound in the direction of progress) are then checked on this loop as
+    # on the catalogued one; a test without such a conjunct stays unclassified.
+    cands = []
+    for v in names:
+        for (fn_, key), ent in LOOPS.items():
+            if fn_ != short_q or ent["kind"] != "index":
+                continue
+            known = _catalogued_bounds(key, ent["dir"])
+            for _c, bound, strict in _bounding_conjuncts(w.test, v, ent["dir"]):
+                if (strict, _abstract(bound, locals_, v)) in known and _bound_is_fixed(w, v, bound):
+                    written = any(isinstance(x, ast.Name) and isinstance(x.ctx, ast.Store) and x.id == v for s_ in w.body for x in ast.walk(s_))
+                    cands.append((not written, len(cands), ent, v))
+    if cands:
+        _nw, _i, ent, v = min(cands, key=lambda t: t[:2])
+        return ent, v, _abstract(w.test, locals_, v)
     return None, None, k
-
-
-def _bounds_var(test, var, direction):
-    """Some conjunct of the loop test bounds ``var`` in the progress direction."""
-    for c in conjuncts(test):
-        if isinstance(c, ast.Compare) and len(c.ops) == 1:
-            l, op, r = unparse(c.left), c.ops[0], unparse(c.comparators[0])
-            if direction > 0 and l == var and isinstance(op, (ast.Lt, ast.LtE)):
-                return True
-            if direction > 0 and r == var and isinstance(op, (ast.Gt, ast.GtE)):
-                return True
-            if direction < 0 and l == var and isinstance(op, (ast.Gt, ast.GtE)):
-                return True
-            if direction < 0 and r == var and isinstance(op, (ast.Lt, ast.LtE)):
-                return True
-    return False
 
 
 def check(ctx):
@@ -730,7 +795,7 @@ META = {
     "technique": "static analysis: call-graph reachability from Execer.parse, loop-variant catalogue checked by CFG cycle queries (no cycle through the loop head without a progress statement), guard facts on the recursion, raise-provenance, string-provenance of the wrapper",
     "text": "Termination 'for all input strings whatsoever' is attacked at the only place it can be decided "
     "statically: the 11 while loops in the 36 functions reachable from Execer.parse are each matched against a "
-    "frozen variant (retry budget with raising guard, monotone index with the bound in the loop test, consumer of a "
+    "frozen variant (retry budget with raising guard, monotone index with the bound in the loop test - recognised by the counter and its fixed bound standing as a conjunct of the test, whatever else the test asks -, consumer of a "
     "finite token stream) and the CFG is queried for a cycle through the loop head that avoids every progress "
     "statement; an unclassified new loop is itself a finding; for-loops must not grow their iterable; the "
     "self-recursion is entered only with logical_input false and passes True; every explicit raise re-raises a "
